@@ -5,6 +5,7 @@ import Proofs.WireTyped
 import Proofs.WireCanon
 import Proofs.WireBatch
 import Proofs.WireState
+import Drv.C12
 
 /-! # C12 — property theorems (wire encodings round-trip, hashes stable, decoders total) -/
 namespace Spec.C12
@@ -525,5 +526,35 @@ theorem txs_nilness (t : GoTxs) :
     (t.rt = t ↔ t ≠ none ∧ ∀ x ∈ t.list, x ≠ none) :=
   ⟨GoTxs.rt_bytes t, by simp [GoTxs.rt], GoTxs.rt_eq_iff t⟩
 example : GoTxs.rt none = some [] ∧ GoTxs.rt (some [none, some [1]]) = some [some [], some [1]] := by decide
+
+/-! ## 10. Decoding is a function of the bytes ("whichever path it travelled")
+
+Trivial in Lean — the decoders are functions and the driver's state is `Unit` — and stated because it is
+what the real code is compared with: in a process that has decoded any other messages before, in any
+order, a decoder must return what the model returns for the same bytes.  The tie is the stream: every
+observation is diffed with this history-free driver, and the `recheck` op re-runs each scenario's ops in
+the same process and, in the opposite order, in a fresh process
+(`C12/roundtrip|decode/depends-on-earlier-decodes/<type>`). -/
+
+/-- whatever was decoded before (`hist`, `hist'`: two processes' inputs so far), the same bytes decode to
+the same result -/
+theorem decode_is_a_function_of_the_bytes {α : Type} (dec : Bytes → Option α) (hist hist' : List Bytes) (i j : Nat)
+    (bs : Bytes) (hi : hist[i]? = some bs) (hj : hist'[j]? = some bs) :
+    (hist.map dec)[i]? = (hist'.map dec)[j]? := by
+  simp [List.getElem?_map, hi, hj]
+example (keyOk : Bytes → Bool) (junk genuine : Bytes) :
+    ([junk, genuine].map (SignedHeader.decode keyOk))[1]? = ([genuine, junk].map (SignedHeader.decode keyOk))[0]? :=
+  decode_is_a_function_of_the_bytes _ _ _ 1 0 genuine rfl rfl
+
+/-- the driver the real code is diffed with has no memory: the observation of an op line is the same
+after any earlier lines -/
+theorem driver_is_history_free (before before' : List String) (line : String) :
+    (Drv.C12.step (before.foldl (fun s l => (Drv.C12.step s l).1) ()) line).2 =
+    (Drv.C12.step (before'.foldl (fun s l => (Drv.C12.step s l).1) ()) line).2 := rfl
+
+/-- `pkg/cache` `loadMapGob` hands the opened file itself to the gob decoder (fact regenerated from the source
+the binary is built from): no cap on what is read, so whatever `SaveToDisk` wrote can be read back whatever its
+size.  The running code is exercised with a 72 MiB file in the thorough tier (`cache-big`). -/
+theorem cache_load_reads_whole_file : Gen.C12.cacheLoadUnbounded = true := by decide
 
 end Spec.C12
